@@ -3406,6 +3406,9 @@ C08_ADVERSARIAL = [
     ("rule r { a.b.c.d.e.f.g.h.i.j.k.l.m.n.o.p.q.r.s.t.u.v.w.x.y.z exists\na[0][1][2][3][4][5][6][7][8][9] exists }\n", {"a": {"b": 1}}),
     ("rule r { keys a == 'x'\nsome keys a[*] in ['k']\na[ keys == 'k' ].x exists }\n", {"a": {"k": {"x": 1}}}),
     ("rule r { now() > 0\nparse_epoch('2020-01-01T00:00:00Z') < now()\nparse_epoch(a) == 0 }\n", {"a": "not a date"}),
+    # a regex whose evaluation fails at run time (backtrack limit of the regex engine)
+    ("rule r { a == /^(?=a)(a+)+(a+)+(a+)+b$/\na != /^(?=a)(a+)+(a+)+b$/\nnot a == /^(?=a)(a+)+(a+)+c$/\nsome b[*] == /^(?=a)(a+)+(a+)+b$/\na in [/^(?=a)(a+)+(a+)+b$/, 'x'] }\n",
+     {"a": "a" * 48 + "!", "b": ["x", "a" * 48 + "!"]}),
     # extreme indices (i32::MIN has no positive counterpart)
     ("rule r { a[-2147483648] exists\na.-2147483648 exists\na[2147483647] exists\na[-1] == 2\n%v[-2147483648] exists }\nlet v = [1, 2]\n", {"a": [1, 2]}),
     ("rule r { a[ keys == 'k' ][-2147483648] exists }\nlet k = a.k\nrule s { a[%k][-2147483648] exists\na.%k[-2147483648] exists }\n", {"a": {"k": "k", "x": [1]}}),
@@ -3567,7 +3570,7 @@ def run_C08(ctx):
         fmt = rng.choice(["json", "json", "yaml-block", "yaml-flow"])
         data = json.dumps(doc) if fmt == "json" else _yaml.safe_dump(doc, default_flow_style=(fmt == "yaml-flow"), allow_unicode=True)
         other = gen.G(ctx.seed * 31 + i).rules_file(doc, depth=1) if rng.random() < 0.5 else data
-        kind = rng.choice(["v-rules", "v-rules", "v-data", "v-data", "v-both", "v-params", "v-payload", "t-rules", "t-tests", "pt", "rulegen", "nest", "cfn-odd"])
+        kind = rng.choice(["v-rules", "v-rules", "v-data", "v-data", "v-both", "v-params", "v-payload", "t-rules", "t-tests", "pt", "rulegen", "nest", "cfn-odd", "cfn-odd", "trivial-doc"])
         mut = lambda t: c08_mutate(rng, t, other) if rng.random() < 0.8 else c08_mutate(rng, c08_mutate(rng, t, other).decode("utf-8", "replace"), other)
         s = {"kind": kind, "rules_text": rules, "data_text": data}
         sflags = ["--structured", "-o", rng.choice(["json", "yaml", "sarif", "junit"]), "-S", "none"] if rng.random() < 0.5 else \
@@ -3594,6 +3597,18 @@ def run_C08(ctx):
         elif kind == "pt":
             r_ = mut(rules)
             s.update(cmd="parse-tree", files={"r.guard": r_}, argv=["parse-tree", "-r", "{DIR}/r.guard"] + rng.choice([[], ["-p"], ["-y"]]), mutated_rules=r_)
+        elif kind == "trivial-doc":
+            # texts that contain no document at all, or nothing but markers and comments
+            td = rng.choice(["# only a comment\n", "---\n", "--- # c\n...\n", "\n\n# c\n", "...\n", "%YAML 1.2\n---\n", "#", "--- \n--- \n", "---\n# c\n---\na: 1\n", "\ufeff# bom\n", "~\n", "# c\n{}\n"])
+            which = rng.choice(["data", "params", "tests", "template"])
+            if which == "data":
+                s.update(cmd="validate", files={"r.guard": rules, "d.yaml": td}, argv=["validate", "-r", "{DIR}/r.guard", "-d", "{DIR}/d.yaml"] + sflags)
+            elif which == "params":
+                s.update(cmd="validate", files={"r.guard": rules, "d.yaml": data, "p.yaml": td}, argv=["validate", "-r", "{DIR}/r.guard", "-d", "{DIR}/d.yaml", "-i", "{DIR}/p.yaml"] + sflags)
+            elif which == "tests":
+                s.update(cmd="test", files={"r.guard": rules, "t.yaml": td}, argv=["test", "-r", "{DIR}/r.guard", "-t", "{DIR}/t.yaml"])
+            else:
+                s.update(cmd="rulegen", files={"t.yaml": td}, argv=["rulegen", "-t", "{DIR}/t.yaml"])
         elif kind == "cfn-odd":
             # well-formed documents that are NOT well-formed templates: resources without a Type, with a Type or a
             # cdk path that is not a string, scalar resources - evaluated with rules that fail on them, console output
@@ -3615,6 +3630,10 @@ def run_C08(ctx):
                     d2["Resources"][rn] = rng.choice([1, "x", None, [rv]])
                 elif m_ == 4:
                     rv.setdefault("Properties", {})["deep"] = {"Resources": {"inner": {"Properties": {"Size": 3}}}}
+            if rng.random() < 0.5:
+                d2[rng.choice(["Zed", "Resourcez", "a", "Z"])] = {"a": {"b": 1, "c": [1, {"d": 2}]}}
+            msg = rng.choice(["", " << >>", " <<;>>", " << ; ; >>", " <<\n>>", " << ;x; >>", " <<é>>"])
+            rules = rules + ("rule odd0 { Zed.a.b == 2%s\nResourcez.a.c[1].d == 3\nZ.a.c[*] == 9\na.a.b > 5 }\nrule oddm { Resources.*.Properties.Size == 'never'%s\nResources.*.Type == 'never'%s }\n" % (msg, msg, msg))
             rr = rules + "rule odd1 { Resources.*.Properties.Size == 'never' }\nrule odd2 { Resources.*.Properties.* exists\nResources.*.* != 'never-equal' <<m>>\nResources.*.Properties.deep.Resources.inner.Properties.Size == 0 }\n"
             s.update(cmd="validate", files={"r.guard": rr, "d.yaml": json.dumps(d2)},
                      argv=["validate", "-r", "{DIR}/r.guard", "-d", "{DIR}/d.yaml"] + rng.choice([[], ["-S", "all"], ["-S", "all", "-v"], ["-o", "json"], ["-o", "yaml"], ["-t", "CFNTemplate"]]))
